@@ -171,7 +171,7 @@ def run(ctx):
         scfg = tlc.write_cfg(os.path.join(ctx.scratch, "PlacementSim.cfg"), constants=sconsts, invariants=INVARIANTS,
                              deadlock=False)
         total = 0
-        for rnd in range(4):
+        for rnd in range(3):
             sres, behs = tlc.simulate("Placement", scfg, ctx.scratch, num=5000, depth=10,
                                       seed=ctx.seed * 4 + rnd + 1, timeout=600)
             if sres.violation:
